@@ -88,7 +88,7 @@ impl Gen<'_> {
 
     fn cmd(&mut self, depth: u32, nested: bool) -> Cmd {
         let mut c = Cmd { lines: vec![], tags: vec![], out: String::new(), heredoc: false, continuation: false, subst_tags: vec![] };
-        let top = if depth >= 2 { 6 } else { 31 };
+        let top = if depth >= 2 { 6 } else { 33 };
         match self.rng.below(top) {
             0..=2 => {
                 let (l, t) = self.probe_line();
@@ -309,6 +309,25 @@ impl Gen<'_> {
             15 if !nested => {
                 c.lines.push(String::new());
             }
+            30 => {
+                // a library sourced without arguments sees the caller's positional parameters:
+                // the script's at top level, the function's inside a function
+                let i = self.id();
+                match self.rng.below(3) {
+                    0 => {
+                        c.lines.push(format!("LIBN={i}; . ./lib15.sh"));
+                        c.tags.push(format!("lib{i}"));
+                    }
+                    1 => {
+                        c.lines.push(format!("LIBN={i}; fs{i}() {{ . ./lib15.sh; }}; fs{i} fa fb fc"));
+                        c.tags.push(format!("lib{i}"));
+                    }
+                    _ => {
+                        c.lines.push(format!("LIBN={i}; . ./lib15.sh x y"));
+                        c.tags.push(format!("lib{i}"));
+                    }
+                }
+            }
             _ => {
                 let i = self.id();
                 c.lines.push(format!("simexit {}", self.rng.range(0, 3)));
@@ -394,6 +413,17 @@ pub const PROGRAMS: &[&str] = &[
     "! true",
 ];
 pub const WORDS: &[&str] = &["@(a|b)", "~user/x", "a:~b", "${x//+(a)/b}", "$((1+2))", "\"quoted $x\"", "!(x|y)*", "a{b,c}d", "\\~x", "x=~/y", "?(a)b", "$'a\\nb'", "`cmd`", "${#x}", "*(a|b)c"];
+pub const EVALS: &[&str] = &[
+    "[[ ABC =~ ^abc$ ]]",
+    "[[ abc =~ ^ABC$ ]]",
+    "case ABC in abc) true ;; *) false ;; esac",
+    "[[ ABC == abc ]]",
+    "[[ aXb == a?b ]]",
+    "[[ ABC =~ ^a.c$ ]]",
+    "[[ xyz =~ ^xyz$ ]]",
+    "case abc in A*) true ;; *) false ;; esac",
+    "x=ABC; [[ ${x/abc/z} == z ]]",
+];
 pub const ARITH: &[&str] = &["1+2", "x=3", "a?b:c", "x++ + ++y", "(1+2)*3", "1 +", "2**3", "a[1]", "x<<=2", "!a && b"];
 
 fn optset(i: u8) -> (bool, bool, bool) {
@@ -417,6 +447,9 @@ fn all_items() -> Vec<(u8, usize)> {
     for i in 0..ARITH.len() {
         v.push((3u8, i));
     }
+    for i in 0..EVALS.len() {
+        v.push((4u8, i));
+    }
     v
 }
 
@@ -424,7 +457,8 @@ fn text_of(kind: u8, idx: usize) -> &'static str {
     match kind {
         0 | 1 => PROGRAMS[idx % PROGRAMS.len()],
         2 => WORDS[idx % WORDS.len()],
-        _ => ARITH[idx % ARITH.len()],
+        3 => ARITH[idx % ARITH.len()],
+        _ => EVALS[idx % EVALS.len()],
     }
 }
 
@@ -436,8 +470,26 @@ fn with_shell<R>(f: impl FnOnce(&mut runner::SimShell) -> R) -> R {
     PARSE_SHELL.with(|cell| {
         let mut b = cell.borrow_mut();
         if b.is_none() {
-            let rt = tokio::runtime::Builder::new_current_thread().build().expect("rt");
-            let sh = rt.block_on(async { brush_core::Shell::builder().do_not_inherit_env(true).build().await }).expect("shell");
+            use brush_builtins::ShellBuilderExt as _;
+            let rt = tokio::runtime::Builder::new_current_thread().enable_all().build().expect("rt");
+            let mut fds = std::collections::HashMap::new();
+            for fd in 0..3 {
+                if let Ok(n) = brush_core::openfiles::null() {
+                    fds.insert(fd, n);
+                }
+            }
+            let sh = rt
+                .block_on(async {
+                    brush_core::Shell::builder()
+                        .default_builtins(brush_builtins::BuiltinSet::BashMode)
+                        .fds(fds)
+                        .do_not_inherit_env(true)
+                        .profile(brush_core::ProfileLoadBehavior::Skip)
+                        .rc(brush_core::RcLoadBehavior::Skip)
+                        .build()
+                        .await
+                })
+                .expect("shell");
             *b = Some(sh);
         }
         f(b.as_mut().unwrap())
@@ -458,7 +510,21 @@ fn query(kind: u8, idx: usize, os: u8) -> String {
         }),
         1 => format!("{:?}", brush_parser::tokenize_str_with_options(text, &po.tokenizer_options())),
         2 => format!("{:?}", brush_parser::word::parse(text, &po)),
-        _ => format!("{:?}", brush_parser::arithmetic::parse(text)),
+        3 => format!("{:?}", brush_parser::arithmetic::parse(text)),
+        _ => with_shell(|sh| {
+            // a pattern / regex evaluation in the long-lived shell: bit 0 of the option set is
+            // nocasematch here (compiled patterns are memoised by brush-core regex.rs)
+            let (nocase, _, _) = optset(os);
+            sh.options_mut().extended_globbing = true;
+            sh.options_mut().posix_mode = false;
+            sh.options_mut().sh_mode = false;
+            let script = format!("shopt -{} nocasematch; {text}", if nocase { "s" } else { "u" });
+            let params = sh.default_exec_params();
+            let si = brush_core::SourceInfo::from("c15");
+            let rt = tokio::runtime::Builder::new_current_thread().enable_all().build().expect("rt");
+            let r = rt.block_on(async { sh.run_string(script, &si, &params).await });
+            format!("{:?}", r.map(|x| u8::from(x.exit_code)).map_err(|e| e.to_string()))
+        }),
     }
 }
 
@@ -621,6 +687,8 @@ fn judge_delivery(case: &Case, v: &mut Verdict) {
         let mut spec = RunSpec::new(text.to_string(), fe, cfg.clone());
         spec.via_entry = case.via_entry;
         spec.args = vec!["a1".to_string(), "b 2".to_string()];
+        spec.files = vec![("lib15.sh".to_string(), "probe \"lib$LIBN\" \"$#\" \"$1\"\n".to_string())];
+        spec.needs_dir = true;
         runner::run(&spec)
     };
     let mut account = |v: &mut Verdict, r: &RunResult| {
